@@ -7,9 +7,9 @@ From RH Require Import Lex.LexGrammar Lex.Agree Lex.AgreeSweep Lex.AgreeSyn Lex.
 Open Scope N_scope.
 
 Lemma known_difference_split s : known_difference s = false ->
-  has_colon_literal s = false /\ has_nonint_bitstring s = false /\ has_psl_word s = false /\ has_crlf_char s = false.
+  has_colon_literal s = false /\ has_psl_word s = false /\ has_crlf_char s = false.
 Proof.
-  unfold known_difference. intros H. apply orb_false_iff in H as [H H4]. apply orb_false_iff in H as [H H3].
+  unfold known_difference. intros H. apply orb_false_iff in H as [H H3].
   apply orb_false_iff in H as [H1 H2]. repeat split; assumption.
 Qed.
 Lemma in_quantifier_split s : in_quantifier s = true ->
@@ -24,7 +24,7 @@ Theorem lexemes_agree_no_cr : forall s,
   lexemes_lang s = lexemes_syn s.
 Proof.
   intros s Q K NC. apply in_quantifier_split in Q as (L1 & CL & CS & ND & NP).
-  apply known_difference_split in K as (K1 & K2 & K3 & _).
+  apply known_difference_split in K as (K1 & K3 & _).
   rewrite (lang_is_spec s L1 CL ND NP NC K1). apply syn_is_spec; assumption.
 Qed.
 
@@ -35,7 +35,7 @@ Theorem lexemes_are_spec : forall s,
 Proof.
   intros s Q K NC. pose proof (lexemes_agree_no_cr s Q K NC) as E.
   apply in_quantifier_split in Q as (L1 & CL & CS & ND & NP).
-  apply known_difference_split in K as (K1 & K2 & K3 & _).
+  apply known_difference_split in K as (K1 & K3 & _).
   pose proof (lang_is_spec s L1 CL ND NP NC K1) as EL.
   unfold clean_lang, lexemes_lang in *. destruct (lang_result s) as [[c l]|]; [|discriminate CL].
   cbn [option_map snd] in *. exists l. split; [symmetry; exact EL|]. split; [reflexivity|]. symmetry. exact E.
@@ -55,7 +55,7 @@ Theorem lexemes_agree : forall s,
   in_quantifier s = true -> known_difference s = false -> lexemes_lang s = lexemes_syn s.
 Proof.
   intros s Q K. apply in_quantifier_split in Q as (L1 & CL & CS & ND & NP).
-  apply known_difference_split in K as (K1 & K2 & K3 & K4).
+  apply known_difference_split in K as (K1 & K3 & K4).
   rewrite (lang_is_spec_eol s L1 CL ND NP K1 K4). apply syn_is_spec_eol; assumption.
 Qed.
 Theorem lexemes_are_spec_eol : forall s,
@@ -65,7 +65,7 @@ Theorem lexemes_are_spec_eol : forall s,
 Proof.
   intros s Q K. pose proof (lexemes_agree s Q K) as E.
   apply in_quantifier_split in Q as (L1 & CL & CS & ND & NP).
-  apply known_difference_split in K as (K1 & K2 & K3 & K4).
+  apply known_difference_split in K as (K1 & K3 & K4).
   pose proof (lang_is_spec_eol s L1 CL ND NP K1 K4) as EL.
   destruct (split_spec LangLexer.keywords_2008 s) as [l|] eqn:SP.
   - exists l. cbn [option_map] in EL. split; [reflexivity|]. split; [exact EL|]. rewrite <- E. exact EL.
